@@ -275,6 +275,7 @@ def parse_model_line(line):
             if t.startswith(k + ':'):
                 d[k] = t[len(k) + 1:]
     d['raw'] = line if len(line) < 400 else line[:400] + '...'
+    d['raw_full'] = ' '.join(t for t in toks if not t.startswith('r:'))
     return d
 
 
